@@ -115,8 +115,10 @@ class Signal(np.lib.mixins.NDArrayOperatorsMixin):
         if ufunc.nout == 1:
             results = (results,)
 
+        # NumPy dispatches to subclass instances first: wrap like the first signal operand
+        first = next((i for i in inputs if isinstance(i, Signal)), self)
         results = tuple(
-            (type(self).like(self, a) if b is None else b) for a, b in zip(results, out)
+            (type(first).like(first, a) if b is None else b) for a, b in zip(results, out)
         )
 
         return results[0] if len(results) == 1 else results
